@@ -36,10 +36,11 @@ class Case:
             predicate evaluated on the implementation's result)
     tags  : set of strings for the distribution report / nontrivial rule
     """
-    __slots__ = ("op", "spec", "judge", "tags", "note")
+    __slots__ = ("op", "spec", "judge", "tags", "note", "spec_judge")
 
-    def __init__(self, op, spec=None, judge=None, tags=(), note=None):
+    def __init__(self, op, spec=None, judge=None, tags=(), note=None, spec_judge=None):
         self.op, self.spec, self.judge, self.tags, self.note = op, spec, judge, set(tags), note
+        self.spec_judge = spec_judge      # callable(c_out, spec_out) -> None | str ; default: equality
 
 
 class Ctx:
